@@ -81,7 +81,16 @@ impl HeaderName {
     pub fn to_string(&self) -> (r: String)
         ensures r@ == self.text(),
     { unimplemented!() }
+    #[verifier::external_body]
+    pub fn as_str(&self) -> (r: &str)
+        ensures r@ == self.text(),
+    { unimplemented!() }
 }
+// ASSUMED (alloc): an owned copy of a str
+#[verifier::external_body]
+pub fn str_to_owned(s: &str) -> (r: String)
+    ensures r@ == s@,
+{ unimplemented!() }
 pub mod headers { pub use super::HeaderName; pub const LOCATION: HeaderName = HeaderName::Location; }
 #[verifier::external_body]
 pub struct HeaderValues { _p: u8 }
@@ -93,6 +102,12 @@ impl HeaderValues {
     pub uninterp spec fn vals(&self) -> Seq<HeaderValue>;
     /// their texts
     pub open spec fn texts(&self) -> Seq<Seq<char>> { self.vals().map(|_i: int, v: HeaderValue| v.text()) }
+    // ASSUMED (http-types: HeaderValues derefs to its FIRST value; the deref panics when there is none)
+    #[verifier::external_body]
+    pub fn as_str(&self) -> (r: &str)
+        requires self.vals().len() > 0,
+        ensures r@ == self.vals()[0].text(),
+    { unimplemented!() }
     // ASSUMED (http-types): iterates the values in order
     #[verifier::external_body]
     pub fn iter(&self) -> (r: ValuesIter<'_>)
@@ -339,6 +354,12 @@ impl<'a> ValuesIter<'a> {
 }
 impl<'a> HeadersIter<'a> {
     pub uninterp spec fn entries(&self) -> Seq<(HeaderName, HeaderValues)>;
+    // ASSUMED (Iterator::map at the level of header NAMES): one item per entry of the map, whatever f makes of it
+    #[verifier::external_body]
+    pub fn map<F: Fn((&'a HeaderName, &'a HeaderValues)) -> HttpHeader>(self, f: F) -> (r: FlatMapped)
+        requires forall|n: &HeaderName, vs: &HeaderValues| call_requires(f, ((n, vs),)),
+        ensures r.produced().len() == self.entries().len(),
+    { unimplemented!() }
     // ASSUMED (Iterator::flat_map, parametric in f): if f turns every entry into an iterator that produces
     // exactly that entry's (name, value) pairs, the flattened iterator produces all pairs, entry by entry
     #[verifier::external_body]
@@ -782,9 +803,11 @@ pub open spec fn header_pairs(h: Seq<HttpHeader>) -> Seq<(Seq<char>, Seq<char>)>
         r is Ok ==> header_pairs(r->Ok_0.headers@) == req.header_pairs(), // [C14/into_protocol_request/every-value-of-every-header-and-nothing-else]
 //@rule X19.mut-self * s/\bself\b/this/
 //@rule X17.await * s/\s*\.await\b//
-//@bind HNAME \.flat_map\(\|\((\w+), \w+\)\|
-//@rule X1.closure-contract 1 closure#\.iter\(\)\s*\.map\(#|$x: &HeaderValue| -> (h: HttpHeader) ensures h.name@ == $HNAME.text() && h.value@ == $x.text() // [C14/into_protocol_request/each-protocol-header-is-the-name-and-one-value-as-given]\n#
-//@rule X1.closure-contract 1 closure#\.flat_map\(#|$x: (&HeaderName, &HeaderValues)| -> (it: MappedValues) ensures header_pairs(it.produced()) == pairs_of(*$x.0, *$x.1) // [C14/into_protocol_request/every-value-of-a-multi-valued-header]\n#
+//@bind HNAME \.(?:flat_map|map)\(\|\((\w+), \w+\)\|
+//@rule X1.closure-contract * closure#\b(?!this)\w+\.iter\(\)\s*\.map\(#|$x: &HeaderValue| -> (h: HttpHeader) ensures h.name@ == $HNAME.text() && h.value@ == $x.text() // [C14/into_protocol_request/each-protocol-header-is-the-name-and-one-value-as-given]\n#
+//@rule X1.closure-contract.per-name * closure#this\s*\.iter\(\)\s*\.map\(#|$x: (&HeaderName, &HeaderValues)| -> (h: HttpHeader) requires $x.1.vals().len() > 0 ensures true#
+//@rule X7.str-owned * s/(\w+(?:\.\w+\(\))*)\.as_str\(\)\.to_(?:owned|string)\(\)/str_to_owned(\1.as_str())/
+//@rule X1.closure-contract * closure#\.flat_map\(#|$x: (&HeaderName, &HeaderValues)| -> (it: MappedValues) ensures header_pairs(it.produced()) == pairs_of(*$x.0, *$x.1) // [C14/into_protocol_request/every-value-of-a-multi-valued-header]\n#
 //@entry
     broadcast use empty_body_reads_empty;
     let mut this = req;
